@@ -34,8 +34,18 @@ package fix
 //@     ensures[C11] imp(istype(self, *Int), istype(res, int))
 //@   method IsNull() (res bool):
 //@     pure
+//@     ensures[C17,C01] res == nullV(self)
 //@   method ToBytes() (res []byte):
 //@     pure
+//@     ensures[C17,C01] res == wireV(self)
+
+// ---- items (C17, C01) ---------------------------------------------------------------
+//@ spec wireKV(kv *KeyValue) bytes =
+//@   ite(kv == nil || kv.Value == nil || nullV(kv.Value) || isnil(wireV(kv.Value)), nilbytes, bytes(cat(kv.Key, "=", wireV(kv.Value))))
+
+//@ func (kv *KeyValue) ToBytes() (res []byte)
+//@   pure
+//@   ensures[C17,C01] res == wireKV(kv)
 
 //@ func (g *Group) AsTemplate() (res Items)
 //@   trusted
@@ -46,3 +56,106 @@ package fix
 //@   requires g != nil
 //@   modifies g.items
 //@   ensures res == g
+
+// ---- checksum (C01, C03) ---------------------------------------------------------
+//@ spec bsum(s string) int
+//@   unfold bsum_empty(): bsum("") == 0
+//@   unfold bsum_snoc(s string, i int): requires 0 <= i && i < len(s) ensures bsum(sub(s, 0, i+1)) == bsum(sub(s, 0, i)) + code(s, i)
+//@   unfold bsum_cat(a string, b string): bsum(cat(a, b)) == bsum(a) + bsum(b)
+//@   unfold bsum_nonneg(s string): bsum(s) >= 0
+//@ spec pad3(s string) string = ite(len(s) == 0, cat("000", s), ite(len(s) == 1, cat("00", s), ite(len(s) == 2, cat("0", s), s)))
+//@ spec digits3(v int) string = cat(chr(48 + v/100), chr(48 + (v/10)%10), chr(48 + v%10))
+//@ lemma[C01,C03] pad3_dec(v int): requires 0 <= v && v < 256 ensures pad3(dec(v)) == digits3(v)
+
+//@ func CalcCheckSum(body []byte) (res []byte)
+//@   safety[C11]
+//@   terminates[C11]
+//@   ensures[C01,C03] @value !isnil(res) && string(res) == digits3((bsum(string(body)) + 1) % 256)
+//@   lemma pad3_dec((bsum(string(body)) + 1) % 256); bsum_nonneg(string(body))
+//@   loop 1:
+//@     invariant[C01,C03] 0 <= iter && iter <= len(body) && sum == bsum(sub(string(body), 0, iter))
+//@     decreases len(body) - iter
+//@     lemma bsum_snoc(string(body), iter); bsum_empty(); bsum_nonneg(sub(string(body), 0, iter))
+
+// ---- value types (C17, C02) ---------------------------------------------------------
+//@ spec wireVother(v ref) bytes
+//@ spec nullVother(v ref) bool
+//@ spec wireV(v Value) bytes =
+//@   ite(istype(v, *String), ite(!v.(*String).valid || v.(*String).value == "", nilbytes, bytes(v.(*String).value)),
+//@   ite(istype(v, *Int), ite(!v.(*Int).valid, nilbytes, bytes(dec(v.(*Int).value))),
+//@   ite(istype(v, *Uint), ite(!v.(*Uint).valid, nilbytes, bytes(dec(v.(*Uint).value))),
+//@   ite(istype(v, *Float), ite(!v.(*Float).valid, nilbytes, ite(!isnil(v.(*Float).source), v.(*Float).source, bytes(ffmt(v.(*Float).value)))),
+//@   ite(istype(v, *Time), ite(!v.(*Time).valid, nilbytes, bytes(tfmt(v.(*Time).value, TimeLayout))),
+//@   ite(istype(v, *Bool), ite(!v.(*Bool).valid, nilbytes, bytes(ite(v.(*Bool).value, "Y", "N"))),
+//@   ite(istype(v, *Raw), v.(*Raw).value, wireVother(v))))))))
+//@ spec nullV(v Value) bool =
+//@   ite(istype(v, *String), !v.(*String).valid,
+//@   ite(istype(v, *Int), !v.(*Int).valid,
+//@   ite(istype(v, *Uint), !v.(*Uint).valid,
+//@   ite(istype(v, *Float), !v.(*Float).valid,
+//@   ite(istype(v, *Time), !v.(*Time).valid,
+//@   ite(istype(v, *Bool), !v.(*Bool).valid,
+//@   ite(istype(v, *Raw), isnil(v.(*Raw).value), nullVother(v))))))))
+
+// bytes.Join over a sequence whose elements are not statically known (trusted schemata, DESIGN 8.8)
+//@ axiom join_empty(s seqstr, sep string): requires seqlen(s) == 0 ensures join(s, sep) == ""
+//@ axiom join_snoc(s seqstr, x string, sep string): join(snoc(s, x), sep) == ite(seqlen(s) == 0, x, cat(join(s, sep), sep, x))
+
+// wire image of an item tree: recursive over the heap, unfolded explicitly
+//@ spec wireItemOther(x ref) bytes heap
+//@ spec wireItem(x Item) bytes heap
+//@   unfold wire_item(x Item): wireItem(x) == ite(istype(x, *KeyValue), wireKV(x.(*KeyValue)), ite(istype(x, *Component), wireComp(x.(*Component)), ite(istype(x, *Group), wireGroup(x.(*Group)), wireItemOther(x))))
+//@ spec wcnt(xs []Item, n int) int heap
+//@ spec wjoin(xs []Item, n int) string heap
+//@   unfold witems_zero(xs []Item): wcnt(xs, 0) == 0 && wjoin(xs, 0) == ""
+//@   unfold witems_step(xs []Item, n int): requires 0 <= n && n < len(xs)
+//@       ensures wcnt(xs, n+1) == wcnt(xs, n) + ite(isnil(wireItem(xs[n])), 0, 1)
+//@            && wjoin(xs, n+1) == ite(isnil(wireItem(xs[n])), wjoin(xs, n), ite(wcnt(xs, n) == 0, string(wireItem(xs[n])), cat(wjoin(xs, n), SOH, wireItem(xs[n]))))
+//@ spec wireItemsB(xs []Item) bytes = bytes(wjoin(xs, len(xs)))
+//@ spec wireComp(c *Component) bytes = ite(wcnt(c.items, len(c.items)) == 0, nilbytes, bytes(wjoin(c.items, len(c.items))))
+//@ spec gcnt(es []Items, n int) int heap
+//@ spec gjoin(es []Items, n int) string heap
+//@   unfold gitems_zero(es []Items): gcnt(es, 0) == 0 && gjoin(es, 0) == ""
+//@   unfold gitems_step(es []Items, n int): requires 0 <= n && n < len(es)
+//@       ensures gcnt(es, n+1) == gcnt(es, n) + ite(wjoin(es[n], len(es[n])) == "", 0, 1)
+//@            && gjoin(es, n+1) == ite(wjoin(es[n], len(es[n])) == "", gjoin(es, n), ite(gcnt(es, n) == 0, wjoin(es[n], len(es[n])), cat(gjoin(es, n), SOH, wjoin(es[n], len(es[n])))))
+//@ spec wireGroup(g *Group) bytes =
+//@   ite(len(g.items) == 0, nilbytes, bytes(cat(g.noTag, "=", dec(len(g.items)), ite(gcnt(g.items, len(g.items)) == 0, "", cat(SOH, gjoin(g.items, len(g.items)))))))
+
+//@ interface Item
+//@   implementations *KeyValue, *Component, *Group
+//@   method ToBytes() (res []byte):
+//@     pure
+//@     ensures[C17,C01] res == wireItem(self)
+//@     lemma wire_item(self)
+
+//@ func (v Items) ToBytes() (res []byte)
+//@   pure
+//@   ensures[C17,C01] res == wireItemsB(v)
+//@   call append#1: lemma join_snoc(seqof(msg), string(itemB), SOH)
+//@   loop 1:
+//@     invariant[C17,C01] 0 <= iter && iter <= len(v) && seqlen(msg) == wcnt(v, iter) && join(seqof(msg), SOH) == wjoin(v, iter)
+//@     decreases len(v) - iter
+//@     lemma witems_zero(v); witems_step(v, iter); join_empty(seqof(msg), SOH)
+
+//@ func (c *Component) ToBytes() (res []byte)
+//@   pure
+//@   requires c != nil
+//@   ensures[C17,C01] res == wireComp(c)
+//@   call append#1: lemma join_snoc(seqof(msg), string(itemB), SOH)
+//@   loop 1:
+//@     invariant[C17,C01] 0 <= iter && iter <= len(c.items) && seqlen(msg) == wcnt(c.items, iter) && join(seqof(msg), SOH) == wjoin(c.items, iter)
+//@     decreases len(c.items) - iter
+//@     lemma witems_zero(c.items); witems_step(c.items, iter); join_empty(seqof(msg), SOH)
+
+//@ func (g *Group) ToBytes() (res []byte)
+//@   pure
+//@   requires g != nil
+//@   ensures[C17,C01] @wire imp(gcnt(g.items, len(g.items)) == len(g.items), res == wireGroup(g))
+//@   ensures[C17] @noempty res == wireGroup(g)
+//@   call append#2: lemma join_snoc(seqof(msg), string(itemB), SOH)
+//@   loop 1:
+//@     invariant[C17,C01] 0 <= iter && iter <= len(g.items) && gcnt(g.items, iter) <= iter && seqlen(msg) == iter + 1
+//@     invariant[C17,C01] imp(gcnt(g.items, iter) == iter, join(seqof(msg), SOH) == cat(g.noTag, "=", dec(len(g.items)), ite(iter == 0, "", cat(SOH, gjoin(g.items, iter)))))
+//@     decreases len(g.items) - iter
+//@     lemma gitems_zero(g.items); gitems_step(g.items, iter); join_snoc(emptystrs, nths(seqof(msg), 0), SOH); join_empty(emptystrs, SOH)
